@@ -4,12 +4,13 @@
 //! `ftruncate64`/`ftruncate`, `unlink`/`unlinkat`, `open64`/`open`/`openat`/`openat64`, `pread64`
 //! and `close` itself (the calls the crate uses today plus the ones an equivalent rewrite of its
 //! I/O would plausibly use). Calls that would change chunk files behind the trace's back
-//! (`rename*` onto a chunk name, `fallocate`, `sync_file_range`, `copy_file_range`, `sendfile` on
+//! (`rename*` across the directory boundary, `fallocate`, `sync_file_range`, `copy_file_range`, `sendfile` on
 //! a traced descriptor) are recorded as *unsupported*: the run then ends INCONCLUSIVE instead of
 //! judging a trace that is known to be incomplete. Rust's std is linked statically and reaches the kernel
 //! through these libc symbols, so the linker binds std's calls to the definitions below;
-//! each forwards with a raw `syscall`. Only chunk files (`r-*.wal`) under the directory of
-//! the active trace are observed, everything else passes straight through.
+//! each forwards with a raw `syscall`. Only files directly under the directory of the active
+//! trace (except `LOCK`) are observed — the chunk files and whatever else the store puts next
+//! to them, `rename` inside the directory included; everything else passes straight through.
 
 #![allow(clippy::missing_safety_doc)]
 
@@ -59,6 +60,8 @@ pub enum Ev {
     Sync { file: FileId, ok: bool, tid: i32 },
     Truncate { file: FileId, len: u64, tid: i32 },
     Unlink { file: FileId, ok: bool, tid: i32 },
+    /// `rename` inside the traced directory (a chunk file written under a temporary name).
+    Rename { from: FileId, to: FileId, ok: bool, tid: i32 },
     Pread { file: FileId, off: u64, len: u64, ret: i64, tid: i32 },
     Ack { flush: u64, ok: bool, err: Option<String>, tid: i32 },
     AckDropped { flush: u64 },
@@ -496,14 +499,17 @@ fn fd_file(fd: c_int) -> Option<FileId> {
     }
 }
 
-/// File name if `path` is a chunk file directly under `dir`.
+/// File name if `path` is a file directly under `dir` that belongs to the journal: the chunk
+/// files, and any other file the store may put next to them (e.g. a chunk written under a
+/// temporary name and renamed into place). The lock file and the harness's own witness file
+/// are not part of it.
 fn chunk_name<'a>(dir: &str, path: &'a str) -> Option<&'a str> {
     let rest = path.strip_prefix(dir)?;
     let rest = rest.strip_prefix('/')?;
-    if rest.starts_with("r-") && rest.ends_with(".wal") && !rest.contains('/') {
-        Some(rest)
-    } else {
+    if rest.is_empty() || rest.contains('/') || rest == "LOCK" || rest == "witness" {
         None
+    } else {
+        Some(rest)
     }
 }
 
@@ -739,28 +745,59 @@ unsafe fn path_is_chunk(path: *const c_char) -> bool {
     }
 }
 
+unsafe fn traced_name(path: *const c_char) -> Option<String> {
+    if path.is_null() || !ACTIVE.load(Ordering::Relaxed) {
+        return None;
+    }
+    let p = CStr::from_ptr(path).to_str().ok()?;
+    let g = lock();
+    let c = g.as_ref()?;
+    chunk_name(&c.dir, p).map(|n| n.to_string())
+}
+
+unsafe fn do_rename(fd1: c_int, from: *const c_char, fd2: c_int, to: *const c_char, flags: libc::c_uint) -> c_int {
+    let (a, b) = (traced_name(from), traced_name(to));
+    match (a, b) {
+        (None, None) => libc::syscall(libc::SYS_renameat2, fd1, from, fd2, to, flags) as c_int,
+        (Some(a), Some(b)) if flags == 0 => {
+            let r = libc::syscall(libc::SYS_renameat2, fd1, from, fd2, to, flags) as c_int;
+            let saved = *libc::__errno_location();
+            let tid = gettid();
+            if let Some(c) = lock().as_mut() {
+                let (fa, fb) = (c.file_id(&a), c.file_id(&b));
+                c.trace.push(Ev::Rename { from: fa, to: fb, ok: r == 0, tid });
+                if r == 0 {
+                    // descriptors opened under the old name now refer to the new one
+                    for f in FD_MAP.iter() {
+                        if f.load(Ordering::Relaxed) == fa + 1 {
+                            f.store(fb + 1, Ordering::Relaxed);
+                        }
+                    }
+                }
+            }
+            set_errno(saved);
+            r
+        }
+        _ => {
+            note_unsupported("rename between the journal directory and elsewhere (or with flags)".to_string());
+            libc::syscall(libc::SYS_renameat2, fd1, from, fd2, to, flags) as c_int
+        }
+    }
+}
+
 #[no_mangle]
 pub unsafe extern "C" fn rename(from: *const c_char, to: *const c_char) -> c_int {
-    if path_is_chunk(from) || path_is_chunk(to) {
-        note_unsupported("rename() of a chunk file".to_string());
-    }
-    libc::syscall(libc::SYS_renameat2, libc::AT_FDCWD, from, libc::AT_FDCWD, to, 0) as c_int
+    do_rename(libc::AT_FDCWD, from, libc::AT_FDCWD, to, 0)
 }
 
 #[no_mangle]
 pub unsafe extern "C" fn renameat(fd1: c_int, from: *const c_char, fd2: c_int, to: *const c_char) -> c_int {
-    if path_is_chunk(from) || path_is_chunk(to) {
-        note_unsupported("renameat() of a chunk file".to_string());
-    }
-    libc::syscall(libc::SYS_renameat2, fd1, from, fd2, to, 0) as c_int
+    do_rename(fd1, from, fd2, to, 0)
 }
 
 #[no_mangle]
 pub unsafe extern "C" fn renameat2(fd1: c_int, from: *const c_char, fd2: c_int, to: *const c_char, flags: libc::c_uint) -> c_int {
-    if path_is_chunk(from) || path_is_chunk(to) {
-        note_unsupported("renameat2() of a chunk file".to_string());
-    }
-    libc::syscall(libc::SYS_renameat2, fd1, from, fd2, to, flags) as c_int
+    do_rename(fd1, from, fd2, to, flags)
 }
 
 #[no_mangle]
